@@ -112,6 +112,7 @@ pub fn child(args: &[String]) -> i32 {
         "c15e2e" => c15::child_e2e(&args[1..]),
         "c18" => c18::child_main(&args[1..]),
         "c18seq" => c18::child_seq(&args[1..]),
+        "c14reports" => c14::child_reports(&args[1..]),
         "c18both" => c18::child_both(&args[1..]),
         "c18cfg" => c18::child_cfg(&args[1..]),
         "c16" => c16::child_main(&args[1..]),
